@@ -1135,6 +1135,9 @@ derived_attr_update(kdump_ctx_t *ctx, struct attr_data *attr,
 	if (attr->flags.invalid)
 		return KDUMP_OK;
 
+	/* The value is always read back from the blob, also on failure. */
+	attr->flags.invalid = 1;
+
 	status = get_attr_blob(ctx, attr, tmpl, &blob);
 	if (status != KDUMP_OK)
 		return status;
@@ -1164,7 +1167,6 @@ derived_attr_update(kdump_ctx_t *ctx, struct attr_data *attr,
 				   "Writing %hu-byte values not implemented",
 				   def->length);
 	}
-	attr->flags.invalid = 1;
 
  unpin:
 	internal_blob_unpin(blob);
